@@ -76,7 +76,7 @@ theorem nodup_split {α : Type} {l pre suf : List α} {x : α} (h : l.Nodup) (e 
 /-- the core of every loop of `compare`: the elements `xs` have distinct keys, `g a` is the node
 stored for `a` under `path / key a` (or nothing), `mk' b` is the node with the bucket `b`. -/
 theorem loop_core {α : Type} (xs : List α) (key : α → String) (hn : (xs.map key).Nodup)
-    (path : Path) (g : α → Option DNode) (hg : ∀ a y, g a = some y → y.path = path ++ [key a])
+    (path : Path) (g : α → Option DNode) (hg : ∀ a ∈ xs, ∀ y, g a = some y → y.path = path ++ [key a])
     (mk' : List DNode → DNode) (f : DNode → α → M DNode)
     (hf : ∀ b a, a ∈ xs → f (mk' b) a =
       match g a with
@@ -90,11 +90,11 @@ theorem loop_core {α : Type} (xs : List α) (key : α → String) (hn : (xs.map
   cases hga : g a with
   | none => simp [List.filterMap_append, hga]
   | some y =>
-    have hy := hg a y hga
+    have hy := hg a ha y hga
     have hfresh : ∀ z ∈ pre.filterMap g, z.path ≠ y.path := by
       intro z hz
       obtain ⟨a', ha', hz'⟩ := List.mem_filterMap.mp hz
-      rw [hg a' z hz', hy]
+      rw [hg a' (by simp [e, ha']) z hz', hy]
       intro e'
       have : key a' = key a := by simpa using e'
       have hn' : (pre.map key ++ key a :: suf.map key).Nodup := by simpa [e] using hn
@@ -287,112 +287,9 @@ theorem depth_get {es : Entries} {k : String} {t : DirTree} (h : AL.get es k = s
     · cases h; omega
     · have := ih h; omega
 
-/-! ## the five loops of `compare` -/
-
-theorem setAdded_eq (path : Path) (pv cv : Option DirTree) (rm md ad : List DNode) (key : Path) (x : DNode) :
-    (DNode.mk path pv cv rm md ad).setAdded key x =
-      bucketSet ad key x >>= fun b' => .ok (.mk path pv cv rm md b') := rfl
-theorem setRemoved_eq (path : Path) (pv cv : Option DirTree) (rm md ad : List DNode) (key : Path) (x : DNode) :
-    (DNode.mk path pv cv rm md ad).setRemoved key x =
-      bucketSet rm key x >>= fun b' => .ok (.mk path pv cv b' md ad) := rfl
-theorem setModified_eq (path : Path) (pv cv : Option DirTree) (rm md ad : List DNode) (key : Path) (x : DNode) :
-    (DNode.mk path pv cv rm md ad).setModified key x =
-      bucketSet md key x >>= fun b' => .ok (.mk path pv cv rm b' ad) := rfl
-
 theorem filter_keys_nodup {es : Entries} (h : AL.sorted es = true) (p : String × DirTree → Bool) :
     ((es.filter p).map Prod.fst).Nodup :=
   (sorted_keys_nodup h).sublist ((List.filter_sublist).map _)
-
-/-- `for k, v in curr.items(): ret.added[ret.path / k] = compare(None, v, ret.path / k)` -/
-theorem loop_added_items {f : DNode → String × DirTree → M DNode} {path : Path}
-    {pv cv : Option DirTree} {rm md : List DNode} {fs : Entries} (hs : AL.sorted fs = true)
-    (hf : ∀ ad k t, (k, t) ∈ fs → f (.mk path pv cv rm md ad) (k, t) =
-      (DNode.mk path pv cv rm md ad).setAdded (path ++ [k]) (addT (path ++ [k]) t)) :
-    fs.foldlM f (.mk path pv cv rm md []) = .ok (.mk path pv cv rm md (addEs path fs)) := by
-  rw [addEs_eq]
-  apply loop_core fs Prod.fst (sorted_keys_nodup hs) path _ _ (fun b => DNode.mk path pv cv rm md b)
-  · intro b a ha
-    obtain ⟨k, t⟩ := a
-    rw [hf b k t ha]; rfl
-  · intro a y h; cases h; exact addT_path _ _
-
-/-- `for k, v in prev.items(): ret.removed[ret.path / k] = compare(v, None, ret.path / k)` -/
-theorem loop_removed_items {f : DNode → String × DirTree → M DNode} {path : Path}
-    {pv cv : Option DirTree} {md ad : List DNode} {es : Entries} (hs : AL.sorted es = true)
-    (hf : ∀ rm k t, (k, t) ∈ es → f (.mk path pv cv rm md ad) (k, t) =
-      (DNode.mk path pv cv rm md ad).setRemoved (path ++ [k]) (remT (path ++ [k]) t)) :
-    es.foldlM f (.mk path pv cv [] md ad) = .ok (.mk path pv cv (remEs path es) md ad) := by
-  rw [remEs_eq]
-  apply loop_core es Prod.fst (sorted_keys_nodup hs) path _ _ (fun b => DNode.mk path pv cv b md ad)
-  · intro b a ha
-    obtain ⟨k, t⟩ := a
-    rw [hf b k t ha]; rfl
-  · intro a y h; cases h; exact remT_path _ _
-
-/-- `for k in curr_keys - prev_keys: ret.added[ret.path / k] = compare(None, curr[k], ret.path / k)` -/
-theorem loop_added_keys {f : DNode → String → M DNode} {path : Path}
-    {pv cv : Option DirTree} {rm md : List DNode} {es fs : Entries}
-    (he : AL.sorted es = true) (hs : AL.sorted fs = true)
-    (hf : ∀ ad k t, AL.get fs k = some t → f (.mk path pv cv rm md ad) k =
-      (DNode.mk path pv cv rm md ad).setAdded (path ++ [k]) (addT (path ++ [k]) t)) :
-    (setDiff (pySet (fs.map Prod.fst)) (pySet (es.map Prod.fst))).foldlM f (.mk path pv cv rm md []) =
-      .ok (.mk path pv cv rm md (addSel path fs es)) := by
-  rw [pySet_nodup (sorted_keys_nodup he), pySet_nodup (sorted_keys_nodup hs), setDiff_keys,
-    List.foldlM_map, addSel_eq]
-  apply loop_core _ Prod.fst (filter_keys_nodup hs _) path _ _ (fun b => DNode.mk path pv cv rm md b)
-  · intro b a ha
-    obtain ⟨k, t⟩ := a
-    have hm : (k, t) ∈ fs := (List.mem_filter.mp ha).1
-    rw [hf b k t ((AL.mem_iff_get hs k t).mp hm)]; rfl
-  · intro a y h; cases h; exact addT_path _ _
-
-/-- `for k in prev_keys - curr_keys: ret.removed[ret.path / k] = compare(prev[k], None, ret.path / k)` -/
-theorem loop_removed_keys {f : DNode → String → M DNode} {path : Path}
-    {pv cv : Option DirTree} {md ad : List DNode} {es fs : Entries}
-    (he : AL.sorted es = true) (hs : AL.sorted fs = true)
-    (hf : ∀ rm k t, AL.get es k = some t → f (.mk path pv cv rm md ad) k =
-      (DNode.mk path pv cv rm md ad).setRemoved (path ++ [k]) (remT (path ++ [k]) t)) :
-    (setDiff (pySet (es.map Prod.fst)) (pySet (fs.map Prod.fst))).foldlM f (.mk path pv cv [] md ad) =
-      .ok (.mk path pv cv (remSel path es fs) md ad) := by
-  rw [pySet_nodup (sorted_keys_nodup he), pySet_nodup (sorted_keys_nodup hs), setDiff_keys,
-    List.foldlM_map, remSel_eq]
-  apply loop_core _ Prod.fst (filter_keys_nodup he _) path _ _ (fun b => DNode.mk path pv cv b md ad)
-  · intro b a ha
-    obtain ⟨k, t⟩ := a
-    have hm : (k, t) ∈ es := (List.mem_filter.mp ha).1
-    rw [hf b k t ((AL.mem_iff_get he k t).mp hm)]; rfl
-  · intro a y h; cases h; exact remT_path _ _
-
-/-- `for k in (prev_keys | curr_keys) - added - removed: d = compare(prev[k], curr[k], ret.path / k);
-if d is not None: ret.modified[ret.path / k] = d` -/
-theorem loop_modified_keys {f : DNode → String → M DNode} {path : Path}
-    {pv cv : Option DirTree} {rm ad : List DNode} {es fs : Entries}
-    (he : AL.sorted es = true) (hs : AL.sorted fs = true)
-    (hf : ∀ md k t u, AL.get es k = some t → AL.get fs k = some u → f (.mk path pv cv rm md ad) k =
-      match cmpT (path ++ [k]) t u with
-      | none => .ok (.mk path pv cv rm md ad)
-      | some d => (DNode.mk path pv cv rm md ad).setModified (path ++ [k]) d) :
-    (setDiff (setDiff (setUnion (pySet (es.map Prod.fst)) (pySet (fs.map Prod.fst)))
-        (setDiff (pySet (fs.map Prod.fst)) (pySet (es.map Prod.fst))))
-        (setDiff (pySet (es.map Prod.fst)) (pySet (fs.map Prod.fst)))).foldlM f (.mk path pv cv rm [] ad) =
-      .ok (.mk path pv cv rm (cmpEs path es fs) ad) := by
-  rw [pySet_nodup (sorted_keys_nodup he), pySet_nodup (sorted_keys_nodup hs), intersection_keys,
-    List.foldlM_map, cmpEs_eq]
-  apply loop_core _ Prod.fst (filter_keys_nodup he _) path _ _ (fun b => DNode.mk path pv cv rm b ad)
-  · intro b a ha
-    obtain ⟨k, t⟩ := a
-    have hm := List.mem_filter.mp ha
-    obtain ⟨u, hu⟩ := Option.isSome_iff_exists.mp hm.2
-    simp only at hu
-    rw [hf b k t u ((AL.mem_iff_get he k t).mp hm.1) hu]
-    simp only [hu, Option.bind_some]
-    cases cmpT (path ++ [k]) t u <;> rfl
-  · intro a y h
-    obtain ⟨u, hu, h'⟩ := Option.bind_eq_some_iff.mp h
-    exact cmpT_path h'
-
-theorem pyEq_file (s s' : String) : pyEq (some (.file s)) (some (.file s')) = decide (s = s') := by
-  by_cases h : s = s' <;> simp [pyEq, treeEq, h]
 
 /-! ## `nodes` -/
 
@@ -720,6 +617,490 @@ theorem sortedD_compareAt {x y : Option DirTree} (hx : wfO x) (hy : wfO y) (p : 
   · cases h; exact sortedD_addT _ _ hy
   · cases h; exact sortedD_remT _ _ hx
   · exact sortedD_cmpT _ _ p hx hy d h
+
+
+/-! ### sorting a permutation of an ascending bucket gives the bucket -/
+
+theorem pathsAbove_iff (p : Path) (l : List DNode) :
+    pathsAbove p l = true ↔ ∀ d ∈ l, pathLt p d.path = true := by
+  induction l with
+  | nil => simp [pathsAbove]
+  | cons x r ih => simp [pathsAbove, ih]
+
+theorem pathSorted_iff (l : List DNode) :
+    pathSorted l = true ↔ l.Pairwise (fun a b => pathLt a.path b.path = true) := by
+  induction l with
+  | nil => simp [pathSorted]
+  | cons x r ih => simp [pathSorted, pathsAbove_iff, ih]
+
+theorem insertByPath_middle (x : DNode) (s1 s2 : List DNode)
+    (h1 : ∀ y ∈ s1, pathLt y.path x.path = true) (h2 : ∀ z ∈ s2, pathLt x.path z.path = true) :
+    insertByPath x (s1 ++ s2) = s1 ++ x :: s2 := by
+  induction s1 with
+  | nil =>
+    cases s2 with
+    | nil => rfl
+    | cons z r => simp [insertByPath, pathLt_asymm _ _ (h2 z (by simp))]
+  | cons y r ih =>
+    simp only [List.cons_append, insertByPath, h1 y (by simp), if_true]
+    rw [ih (fun y hy => h1 y (by simp [hy]))]
+
+theorem sortedByPath_perm_sorted : ∀ (l s : List DNode), l.Perm s → pathSorted s = true → sortedByPath l = s := by
+  intro l
+  induction l with
+  | nil => intro s h _; have := List.Perm.nil_eq h; subst this; rfl
+  | cons x l ih =>
+    intro s h hs
+    have hx : x ∈ s := h.subset (by simp)
+    obtain ⟨s1, s2, rfl⟩ := List.append_of_mem hx
+    have hp : l.Perm (s1 ++ s2) := (List.perm_cons x).mp (h.trans List.perm_middle)
+    rw [pathSorted_iff] at hs
+    have hs' : (s1 ++ s2).Pairwise (fun a b => pathLt a.path b.path = true) :=
+      hs.sublist (by simp)
+    rw [sortedByPath, ih (s1 ++ s2) hp ((pathSorted_iff _).mpr hs')]
+    rw [List.pairwise_append] at hs
+    apply insertByPath_middle
+    · intro y hy; exact hs.2.2 y hy x (by simp)
+    · intro z hz; exact (List.pairwise_cons.mp hs.2.1).1 z hz
+
+
+/-! ## loops in an arbitrary iteration order -/
+
+/-- what the bridge assumes of the iteration order of sets and input dicts -/
+def PermOrd (ord : IterOrd) : Prop := ∀ (α : Type) (l : List α), (ord α l).Perm l
+
+example : PermOrd (fun _ l => l) := fun _ _ => List.Perm.refl _
+example : PermOrd (fun _ l => l.reverse) := fun _ l => List.reverse_perm l
+
+/-- `loop_core` for a loop that visits the elements `xs` in some other order `ys` -/
+theorem loop_core_perm {α : Type} (xs ys : List α) (hp : ys.Perm xs) (key : α → String)
+    (hn : (xs.map key).Nodup) (path : Path) (g gm : α → Option DNode)
+    (hgm : ∀ a ∈ xs, (g a).map canon = gm a)
+    (hpath : ∀ a y, gm a = some y → y.path = path ++ [key a])
+    (mk' : List DNode → DNode) (f : DNode → α → M DNode)
+    (hf : ∀ b a, a ∈ xs → f (mk' b) a =
+      match g a with
+      | none => .ok (mk' b)
+      | some y => bucketSet b (path ++ [key a]) y >>= fun b' => .ok (mk' b')) :
+    ys.foldlM f (mk' []) = .ok (mk' (ys.filterMap g)) := by
+  apply loop_core ys key ((hp.map key).nodup_iff.mpr hn) path g _ mk' f
+  · intro b a ha; exact hf b a (hp.subset ha)
+  · intro a ha y hy
+    have h1 := hgm a (hp.subset ha)
+    rw [hy, Option.map_some] at h1
+    rw [← canon_path, hpath a (canon y) h1.symm]
+
+/-- the bucket such a loop builds, with the insertion order forgotten, is the model's bucket -/
+theorem canon_bucket_perm {α : Type} (xs ys : List α) (hp : ys.Perm xs) (g gm : α → Option DNode)
+    (hgm : ∀ a ∈ xs, (g a).map canon = gm a) (hs : pathSorted (xs.filterMap gm) = true) :
+    sortedByPath (canonL (ys.filterMap g)) = xs.filterMap gm := by
+  apply sortedByPath_perm_sorted _ _ _ hs
+  rw [canonL_map, List.map_filterMap]
+  have : ys.filterMap (fun a => (g a).map canon) = ys.filterMap gm := by
+    apply List.filterMap_congr
+    intro a ha
+    exact hgm a (hp.subset ha)
+  rw [this]
+  exact hp.filterMap gm
+
+
+theorem insertByPath_ne_nil (x : DNode) (l : List DNode) : insertByPath x l ≠ [] := by
+  cases l with
+  | nil => simp [insertByPath]
+  | cons y r => simp only [insertByPath]; split_ifs <;> simp
+
+/-- forgetting the order does not change whether a bucket is empty -/
+theorem isEmpty_of_canon {B S : List DNode} (h : sortedByPath (canonL B) = S) : B.isEmpty = S.isEmpty := by
+  cases B with
+  | nil => subst h; rfl
+  | cons x r =>
+    cases S with
+    | nil => exact absurd h (by simp only [canonL, sortedByPath]; exact insertByPath_ne_nil _ _)
+    | cons _ _ => rfl
+
+/-- a loop over (a permutation of) the keys `K` of the entries of `src` selected by `P`:
+`c k t` is the node the body stores for the entry `(k, t)` (or nothing), `gm k t` the model's -/
+theorem loop_keys_eq (src : Entries) (hsrc : AL.sorted src = true) (P : String × DirTree → Bool)
+    (path : Path) (c gm : String → DirTree → Option DNode)
+    (hc : ∀ k t, AL.get src k = some t → (c k t).map canon = gm k t)
+    (hpath : ∀ k t y, gm k t = some y → y.path = path ++ [k])
+    (mk' : List DNode → DNode) (f : DNode → String → M DNode)
+    (hf : ∀ b k t, AL.get src k = some t → P (k, t) = true → f (mk' b) k =
+      match c k t with
+      | none => .ok (mk' b)
+      | some y => bucketSet b (path ++ [k]) y >>= fun b' => .ok (mk' b'))
+    (K ys : List String) (hK : K = (src.filter P).map Prod.fst) (hp : ys.Perm K) :
+    ys.foldlM f (mk' []) = .ok (mk' (ys.filterMap (fun k => (AL.get src k).bind (c k)))) := by
+  have hmem : ∀ k ∈ K, ∃ t, AL.get src k = some t ∧ P (k, t) = true := by
+    intro k hk
+    rw [hK] at hk
+    obtain ⟨⟨k', t⟩, he, rfl⟩ := List.mem_map.mp hk
+    have := List.mem_filter.mp he
+    exact ⟨t, (AL.mem_iff_get hsrc k' t).mp this.1, this.2⟩
+  apply loop_core_perm K ys hp id (by rw [List.map_id, hK]; exact filter_keys_nodup hsrc P) path
+    (fun k => (AL.get src k).bind (c k)) (fun k => (AL.get src k).bind (gm k))
+  · intro k hk
+    obtain ⟨t, ht, _⟩ := hmem k hk
+    simp only [ht, Option.bind_some]
+    exact hc k t ht
+  · intro k y h
+    obtain ⟨t, _, h'⟩ := Option.bind_eq_some_iff.mp h
+    exact hpath k t y h'
+  · intro b k hk
+    obtain ⟨t, ht, hP⟩ := hmem k hk
+    simp only [ht, Option.bind_some, id]
+    exact hf b k t ht hP
+
+theorem loop_keys_canon (src : Entries) (hsrc : AL.sorted src = true) (P : String × DirTree → Bool)
+    (path : Path) (c gm : String → DirTree → Option DNode)
+    (hc : ∀ k t, AL.get src k = some t → (c k t).map canon = gm k t)
+    (hpath : ∀ k t y, gm k t = some y → y.path = path ++ [k])
+    (K ys : List String) (hK : K = (src.filter P).map Prod.fst) (hp : ys.Perm K) :
+    sortedByPath (canonL (ys.filterMap (fun k => (AL.get src k).bind (c k)))) =
+      (src.filter P).filterMap (fun e => gm e.1 e.2) := by
+  have hmem : ∀ k ∈ K, ∃ t, AL.get src k = some t := by
+    intro k hk
+    rw [hK] at hk
+    obtain ⟨⟨k', t⟩, he, rfl⟩ := List.mem_map.mp hk
+    exact ⟨t, (AL.mem_iff_get hsrc k' t).mp (List.mem_filter.mp he).1⟩
+  have hsorted : pathSorted ((src.filter P).filterMap (fun e => gm e.1 e.2)) = true :=
+    pathSorted_filter_filterMap hsrc path P _ (fun e y h => hpath e.1 e.2 y h)
+  have hKm : K.filterMap (fun k => (AL.get src k).bind (gm k)) =
+      (src.filter P).filterMap (fun e => gm e.1 e.2) := by
+    rw [hK, List.filterMap_map]
+    apply List.filterMap_congr
+    intro e he
+    have := (AL.mem_iff_get hsrc e.1 e.2).mp (List.mem_filter.mp he).1
+    simp [this]
+  rw [← hKm] at hsorted ⊢
+  apply canon_bucket_perm K ys hp _ _ _ hsorted
+  intro k hk
+  obtain ⟨t, ht⟩ := hmem k hk
+  simp only [ht, Option.bind_some]
+  exact hc k t ht
+
+/-- a loop over (a permutation of) the items of a dict -/
+theorem loop_items_eq (src : Entries) (hsrc : AL.sorted src = true)
+    (path : Path) (c gm : String → DirTree → Option DNode)
+    (hc : ∀ k t, (k, t) ∈ src → (c k t).map canon = gm k t)
+    (hpath : ∀ k t y, gm k t = some y → y.path = path ++ [k])
+    (mk' : List DNode → DNode) (f : DNode → String × DirTree → M DNode)
+    (hf : ∀ b k t, (k, t) ∈ src → f (mk' b) (k, t) =
+      match c k t with
+      | none => .ok (mk' b)
+      | some y => bucketSet b (path ++ [k]) y >>= fun b' => .ok (mk' b'))
+    (ys : Entries) (hp : ys.Perm src) :
+    ys.foldlM f (mk' []) = .ok (mk' (ys.filterMap (fun e => c e.1 e.2))) := by
+  apply loop_core_perm src ys hp Prod.fst (sorted_keys_nodup hsrc) path
+    (fun e => c e.1 e.2) (fun e => gm e.1 e.2)
+  · intro e he; exact hc e.1 e.2 he
+  · intro e y h; exact hpath e.1 e.2 y h
+  · intro b e he; exact hf b e.1 e.2 he
+
+theorem loop_items_canon (src : Entries) (hsrc : AL.sorted src = true)
+    (path : Path) (c gm : String → DirTree → Option DNode)
+    (hc : ∀ k t, (k, t) ∈ src → (c k t).map canon = gm k t)
+    (hpath : ∀ k t y, gm k t = some y → y.path = path ++ [k])
+    (ys : Entries) (hp : ys.Perm src) :
+    sortedByPath (canonL (ys.filterMap (fun e => c e.1 e.2))) = src.filterMap (fun e => gm e.1 e.2) := by
+  apply canon_bucket_perm src ys hp _ _ _ (pathSorted_filterMap hsrc path _ (fun e y h => hpath e.1 e.2 y h))
+  intro e he; exact hc e.1 e.2 he
+
+
+/-! ## the five loops of `compare` -/
+
+/-- the bucket a loop over keys builds -/
+def keyBucket (ys : List String) (src : Entries) (c : String → DirTree → Option DNode) : List DNode :=
+  ys.filterMap (fun k => (AL.get src k).bind (c k))
+
+/-- the bucket a loop over items builds -/
+def itemBucket (ys : Entries) (c : String → DirTree → Option DNode) : List DNode :=
+  ys.filterMap (fun e => c e.1 e.2)
+
+
+/-- `for k, v in curr.items(): ret.added[ret.path / k] = compare(None, v, ret.path / k)` -/
+theorem loop_added_items {ord : IterOrd} (hord : PermOrd ord) {path : Path} {pv cv : Option DirTree} {f : DNode → String × DirTree → M DNode} {rm md : List DNode} {fs : Entries}
+    (hs : AL.sorted fs = true) (c : String → DirTree → Option DNode)
+    (hc : ∀ k t, (k, t) ∈ fs → (c k t).map canon = some (addT (path ++ [k]) t))
+    (hf : ∀ ad k t, (k, t) ∈ fs → f (.mk path pv cv rm md ad) (k, t) =
+      match c k t with
+      | none => .ok (.mk path pv cv rm md ad)
+      | some y => (DNode.mk path pv cv rm md ad).setAdded (path ++ [k]) y) :
+    (ord _ fs).foldlM f (.mk path pv cv rm md []) = .ok (.mk path pv cv rm md (itemBucket (ord _ fs) c)) :=
+  loop_items_eq fs hs path c (fun k t => some (addT (path ++ [k]) t)) hc
+    (fun k t y h => by cases h; exact addT_path _ _) (fun b => DNode.mk path pv cv rm md b) f
+    (fun b k t h => by rw [hf b k t h]; cases c k t <;> rfl) _ (hord _ fs)
+
+theorem canon_added_items {ord : IterOrd} (hord : PermOrd ord) {path : Path} {fs : Entries} (hs : AL.sorted fs = true) (c : String → DirTree → Option DNode)
+    (hc : ∀ k t, (k, t) ∈ fs → (c k t).map canon = some (addT (path ++ [k]) t)) :
+    sortedByPath (canonL (itemBucket (ord _ fs) c)) = addEs path fs := by
+  rw [addEs_eq]
+  exact loop_items_canon fs hs path c (fun k t => some (addT (path ++ [k]) t)) hc
+    (fun k t y h => by cases h; exact addT_path _ _) _ (hord _ fs)
+
+/-- `for k, v in prev.items(): ret.removed[ret.path / k] = compare(v, None, ret.path / k)` -/
+theorem loop_removed_items {ord : IterOrd} (hord : PermOrd ord) {path : Path} {pv cv : Option DirTree} {f : DNode → String × DirTree → M DNode} {md ad : List DNode} {es : Entries}
+    (hs : AL.sorted es = true) (c : String → DirTree → Option DNode)
+    (hc : ∀ k t, (k, t) ∈ es → (c k t).map canon = some (remT (path ++ [k]) t))
+    (hf : ∀ rm k t, (k, t) ∈ es → f (.mk path pv cv rm md ad) (k, t) =
+      match c k t with
+      | none => .ok (.mk path pv cv rm md ad)
+      | some y => (DNode.mk path pv cv rm md ad).setRemoved (path ++ [k]) y) :
+    (ord _ es).foldlM f (.mk path pv cv [] md ad) = .ok (.mk path pv cv (itemBucket (ord _ es) c) md ad) :=
+  loop_items_eq es hs path c (fun k t => some (remT (path ++ [k]) t)) hc
+    (fun k t y h => by cases h; exact remT_path _ _) (fun b => DNode.mk path pv cv b md ad) f
+    (fun b k t h => by rw [hf b k t h]; cases c k t <;> rfl) _ (hord _ es)
+
+theorem canon_removed_items {ord : IterOrd} (hord : PermOrd ord) {path : Path} {es : Entries} (hs : AL.sorted es = true) (c : String → DirTree → Option DNode)
+    (hc : ∀ k t, (k, t) ∈ es → (c k t).map canon = some (remT (path ++ [k]) t)) :
+    sortedByPath (canonL (itemBucket (ord _ es) c)) = remEs path es := by
+  rw [remEs_eq]
+  exact loop_items_canon es hs path c (fun k t => some (remT (path ++ [k]) t)) hc
+    (fun k t y h => by cases h; exact remT_path _ _) _ (hord _ es)
+
+
+theorem added_keys_eq {es fs : Entries} (he : AL.sorted es = true) (hs : AL.sorted fs = true) : setDiff (pySet (fs.map Prod.fst)) (pySet (es.map Prod.fst)) =
+    (fs.filter (fun e => (AL.get es e.1).isNone)).map Prod.fst := by
+  rw [pySet_nodup (sorted_keys_nodup he), pySet_nodup (sorted_keys_nodup hs), setDiff_keys]
+
+theorem modified_keys_eq {es fs : Entries} (he : AL.sorted es = true) (hs : AL.sorted fs = true) :
+    setDiff (setDiff (setUnion (pySet (es.map Prod.fst)) (pySet (fs.map Prod.fst)))
+      (setDiff (pySet (fs.map Prod.fst)) (pySet (es.map Prod.fst))))
+      (setDiff (pySet (es.map Prod.fst)) (pySet (fs.map Prod.fst))) =
+    (es.filter (fun e => (AL.get fs e.1).isSome)).map Prod.fst := by
+  rw [pySet_nodup (sorted_keys_nodup he), pySet_nodup (sorted_keys_nodup hs), intersection_keys]
+
+/-- `for k in curr_keys - prev_keys: ret.added[ret.path / k] = compare(None, curr[k], ret.path / k)` -/
+theorem loop_added_keys {ord : IterOrd} (hord : PermOrd ord) {path : Path} {pv cv : Option DirTree} {es fs : Entries} (he : AL.sorted es = true) (hs : AL.sorted fs = true) 
+    {f : DNode → String → M DNode} {rm md : List DNode}
+    (c : String → DirTree → Option DNode)
+    (hc : ∀ k t, AL.get fs k = some t → (c k t).map canon = some (addT (path ++ [k]) t))
+    (hf : ∀ ad k t, AL.get fs k = some t → f (.mk path pv cv rm md ad) k =
+      match c k t with
+      | none => .ok (.mk path pv cv rm md ad)
+      | some y => (DNode.mk path pv cv rm md ad).setAdded (path ++ [k]) y) :
+    (ord _ (setDiff (pySet (fs.map Prod.fst)) (pySet (es.map Prod.fst)))).foldlM f (.mk path pv cv rm md []) =
+      .ok (.mk path pv cv rm md
+        (keyBucket (ord _ (setDiff (pySet (fs.map Prod.fst)) (pySet (es.map Prod.fst)))) fs c)) :=
+  loop_keys_eq fs hs _ path c (fun k t => some (addT (path ++ [k]) t)) hc
+    (fun k t y h => by cases h; exact addT_path _ _) (fun b => DNode.mk path pv cv rm md b) f
+    (fun b k t h _ => by rw [hf b k t h]; cases c k t <;> rfl) _ _ (added_keys_eq he hs) (hord _ _)
+
+theorem canon_added_keys {ord : IterOrd} (hord : PermOrd ord) {path : Path} {es fs : Entries} (he : AL.sorted es = true) (hs : AL.sorted fs = true) 
+    (c : String → DirTree → Option DNode)
+    (hc : ∀ k t, AL.get fs k = some t → (c k t).map canon = some (addT (path ++ [k]) t)) :
+    sortedByPath (canonL
+      (keyBucket (ord _ (setDiff (pySet (fs.map Prod.fst)) (pySet (es.map Prod.fst)))) fs c)) =
+      addSel path fs es := by
+  rw [addSel_eq]
+  exact loop_keys_canon fs hs _ path c (fun k t => some (addT (path ++ [k]) t)) hc
+    (fun k t y h => by cases h; exact addT_path _ _) _ _ (added_keys_eq he hs) (hord _ _)
+
+/-- `for k in prev_keys - curr_keys: ret.removed[ret.path / k] = compare(prev[k], None, ret.path / k)` -/
+theorem loop_removed_keys {ord : IterOrd} (hord : PermOrd ord) {path : Path} {pv cv : Option DirTree} {es fs : Entries} (he : AL.sorted es = true) (hs : AL.sorted fs = true) 
+    {f : DNode → String → M DNode} {md ad : List DNode}
+    (c : String → DirTree → Option DNode)
+    (hc : ∀ k t, AL.get es k = some t → (c k t).map canon = some (remT (path ++ [k]) t))
+    (hf : ∀ rm k t, AL.get es k = some t → f (.mk path pv cv rm md ad) k =
+      match c k t with
+      | none => .ok (.mk path pv cv rm md ad)
+      | some y => (DNode.mk path pv cv rm md ad).setRemoved (path ++ [k]) y) :
+    (ord _ (setDiff (pySet (es.map Prod.fst)) (pySet (fs.map Prod.fst)))).foldlM f (.mk path pv cv [] md ad) =
+      .ok (.mk path pv cv
+        (keyBucket (ord _ (setDiff (pySet (es.map Prod.fst)) (pySet (fs.map Prod.fst)))) es c) md ad) :=
+  loop_keys_eq es he _ path c (fun k t => some (remT (path ++ [k]) t)) hc
+    (fun k t y h => by cases h; exact remT_path _ _) (fun b => DNode.mk path pv cv b md ad) f
+    (fun b k t h _ => by rw [hf b k t h]; cases c k t <;> rfl) _ _ (added_keys_eq hs he) (hord _ _)
+
+theorem canon_removed_keys {ord : IterOrd} (hord : PermOrd ord) {path : Path} {es fs : Entries} (he : AL.sorted es = true) (hs : AL.sorted fs = true) 
+    (c : String → DirTree → Option DNode)
+    (hc : ∀ k t, AL.get es k = some t → (c k t).map canon = some (remT (path ++ [k]) t)) :
+    sortedByPath (canonL
+      (keyBucket (ord _ (setDiff (pySet (es.map Prod.fst)) (pySet (fs.map Prod.fst)))) es c)) =
+      remSel path es fs := by
+  rw [remSel_eq]
+  exact loop_keys_canon es he _ path c (fun k t => some (remT (path ++ [k]) t)) hc
+    (fun k t y h => by cases h; exact remT_path _ _) _ _ (added_keys_eq hs he) (hord _ _)
+
+/-- `for k in (prev_keys | curr_keys) - added - removed: d = compare(prev[k], curr[k], ret.path / k);
+if d is not None: ret.modified[ret.path / k] = d` (`c k t` already looks `curr[k]` up) -/
+theorem loop_modified_keys {ord : IterOrd} (hord : PermOrd ord) {path : Path} {pv cv : Option DirTree} {es fs : Entries} (he : AL.sorted es = true) (hs : AL.sorted fs = true) 
+    {f : DNode → String → M DNode} {rm ad : List DNode}
+    (c : String → DirTree → Option DNode)
+    (hc : ∀ k t, AL.get es k = some t →
+      (c k t).map canon = (AL.get fs k).bind (cmpT (path ++ [k]) t))
+    (hf : ∀ md k t u, AL.get es k = some t → AL.get fs k = some u → f (.mk path pv cv rm md ad) k =
+      match c k t with
+      | none => .ok (.mk path pv cv rm md ad)
+      | some y => (DNode.mk path pv cv rm md ad).setModified (path ++ [k]) y) :
+    (ord _ (setDiff (setDiff (setUnion (pySet (es.map Prod.fst)) (pySet (fs.map Prod.fst)))
+        (setDiff (pySet (fs.map Prod.fst)) (pySet (es.map Prod.fst))))
+        (setDiff (pySet (es.map Prod.fst)) (pySet (fs.map Prod.fst))))).foldlM f (.mk path pv cv rm [] ad) =
+      .ok (.mk path pv cv rm
+        (keyBucket (ord _ (setDiff (setDiff (setUnion (pySet (es.map Prod.fst)) (pySet (fs.map Prod.fst)))
+          (setDiff (pySet (fs.map Prod.fst)) (pySet (es.map Prod.fst))))
+          (setDiff (pySet (es.map Prod.fst)) (pySet (fs.map Prod.fst))))) es c) ad) :=
+  loop_keys_eq es he _ path c (fun k t => (AL.get fs k).bind (cmpT (path ++ [k]) t)) hc
+    (fun k t y h => by
+      obtain ⟨u, _, h'⟩ := Option.bind_eq_some_iff.mp h
+      exact cmpT_path h') (fun b => DNode.mk path pv cv rm b ad) f
+    (fun b k t h hP => by
+      obtain ⟨u, hu⟩ := Option.isSome_iff_exists.mp hP
+      rw [hf b k t u h hu]; cases c k t <;> rfl) _ _ (modified_keys_eq he hs) (hord _ _)
+
+theorem canon_modified_keys {ord : IterOrd} (hord : PermOrd ord) {path : Path} {es fs : Entries} (he : AL.sorted es = true) (hs : AL.sorted fs = true) 
+    (c : String → DirTree → Option DNode)
+    (hc : ∀ k t, AL.get es k = some t →
+      (c k t).map canon = (AL.get fs k).bind (cmpT (path ++ [k]) t)) :
+    sortedByPath (canonL
+      (keyBucket (ord _ (setDiff (setDiff (setUnion (pySet (es.map Prod.fst)) (pySet (fs.map Prod.fst)))
+          (setDiff (pySet (fs.map Prod.fst)) (pySet (es.map Prod.fst))))
+          (setDiff (pySet (es.map Prod.fst)) (pySet (fs.map Prod.fst))))) es c)) =
+      cmpEs path es fs := by
+  rw [cmpEs_eq]
+  exact loop_keys_canon es he _ path c (fun k t => (AL.get fs k).bind (cmpT (path ++ [k]) t)) hc
+    (fun k t y h => by
+      obtain ⟨u, _, h'⟩ := Option.bind_eq_some_iff.mp h
+      exact cmpT_path h') _ _ (modified_keys_eq he hs) (hord _ _)
+
+
+
+/-! ### `get` does not depend on the insertion order of the buckets -/
+
+theorem perm_insertByPath (x : DNode) (l : List DNode) : (insertByPath x l).Perm (x :: l) := by
+  induction l with
+  | nil => simp [insertByPath]
+  | cons y r ih =>
+    simp only [insertByPath]
+    split_ifs
+    · exact (List.Perm.cons y ih).trans (List.Perm.swap x y r)
+    · exact List.Perm.refl _
+
+theorem perm_sortedByPath (l : List DNode) : (sortedByPath l).Perm l := by
+  induction l with
+  | nil => exact List.Perm.refl _
+  | cons x r ih => exact (perm_insertByPath x _).trans (List.Perm.cons x ih)
+
+theorem pathLt_irrefl (p : Path) : pathLt p p = false := by
+  cases h : pathLt p p with
+  | false => rfl
+  | true => exact absurd (pathLt_asymm p p h) (by simp [h])
+
+theorem pathSorted_nodup {l : List DNode} (h : pathSorted l = true) : (l.map DNode.path).Nodup := by
+  rw [pathSorted_iff] at h
+  rw [List.nodup_iff_pairwise_ne, List.pairwise_map]
+  exact h.imp (fun {a b} hab e => by rw [e, pathLt_irrefl] at hab; cases hab)
+
+/-- in a bucket with distinct paths, looking a path up finds the one node that has it -/
+theorem findPath_eq_some {l : List DNode} (hn : (l.map DNode.path).Nodup) (q : Path) (d : DNode) :
+    findPath q l = some d ↔ d ∈ l ∧ d.path = q := by
+  induction l with
+  | nil => simp [findPath]
+  | cons x r ih =>
+    simp only [List.map_cons, List.nodup_cons] at hn
+    simp only [findPath]
+    split_ifs with hx
+    · constructor
+      · intro h; cases h; exact ⟨by simp, hx⟩
+      · rintro ⟨hm, hq⟩
+        rcases List.mem_cons.mp hm with rfl | hm
+        · rfl
+        · exact absurd (List.mem_map_of_mem (f := DNode.path) hm) (by rw [hq, ← hx]; exact hn.1)
+    · rw [ih hn.2]
+      constructor
+      · rintro ⟨hm, hq⟩; exact ⟨by simp [hm], hq⟩
+      · rintro ⟨hm, hq⟩
+        rcases List.mem_cons.mp hm with rfl | hm
+        · exact absurd hq hx
+        · exact ⟨hm, hq⟩
+
+theorem findPath_perm {l1 l2 : List DNode} (hp : l1.Perm l2) (hn : (l1.map DNode.path).Nodup) (q : Path) :
+    findPath q l1 = findPath q l2 := by
+  have hn2 : (l2.map DNode.path).Nodup := (hp.map _).nodup_iff.mp hn
+  cases h : findPath q l1 with
+  | some d =>
+    have := (findPath_eq_some hn q d).mp h
+    exact ((findPath_eq_some hn2 q d).mpr ⟨hp.subset this.1, this.2⟩).symm
+  | none =>
+    cases h2 : findPath q l2 with
+    | none => rfl
+    | some d =>
+      have := (findPath_eq_some hn2 q d).mp h2
+      rw [(findPath_eq_some hn q d).mpr ⟨hp.symm.subset this.1, this.2⟩] at h
+      cases h
+
+theorem findPath_map_canon (q : Path) (l : List DNode) :
+    findPath q (l.map canon) = (findPath q l).map canon := by
+  induction l with
+  | nil => rfl
+  | cons x r ih =>
+    simp only [List.map_cons, findPath, canon_path, ih]
+    split_ifs <;> rfl
+
+/-- looking a path up in a bucket, and in the bucket with the order forgotten -/
+theorem findPath_canon_bucket (q : Path) (b : List DNode) (hs : pathSorted (sortedByPath (canonL b)) = true) :
+    findPath q (sortedByPath (canonL b)) = (findPath q b).map canon := by
+  rw [← findPath_map_canon, canonL_map]
+  have hn := pathSorted_nodup hs
+  rw [canonL_map] at hn hs
+  exact findPath_perm (perm_sortedByPath _) hn q
+
+theorem findPath_children_canon (q : Path) (cur : DNode) (hs : sortedD (canon cur) = true) :
+    findPath q (Diff.children (canon cur)) = (findPath q (Diff.children cur)).map canon := by
+  obtain ⟨p, pv, cv, rm, md, ad⟩ := cur
+  simp only [canon, sortedD, Bool.and_eq_true] at hs
+  simp only [canon, Diff.children, findPath_append, findPath_canon_bucket q rm hs.1.1.1,
+    findPath_canon_bucket q md hs.1.2.1, findPath_canon_bucket q ad hs.2.1]
+  cases findPath q rm <;> cases findPath q md <;> cases findPath q ad <;> rfl
+
+theorem mem_children_canon {cur c : DNode} (hc : c ∈ Diff.children cur) : canon c ∈ Diff.children (canon cur) := by
+  obtain ⟨p, pv, cv, rm, md, ad⟩ := cur
+  simp only [Diff.children, canon, List.mem_append, canonL_map] at hc ⊢
+  have hm : ∀ b : List DNode, c ∈ b → canon c ∈ sortedByPath (b.map canon) := fun b h =>
+    (perm_sortedByPath _).symm.subset (List.mem_map_of_mem h)
+  rcases hc with h | h | h
+  · exact Or.inl (hm _ h)
+  · exact Or.inr (Or.inl (hm _ h))
+  · exact Or.inr (Or.inr (hm _ h))
+
+theorem sortedD_child {m c : DNode} (hs : sortedD m = true) (hc : c ∈ Diff.children m) : sortedD c = true := by
+  obtain ⟨p, pv, cv, rm, md, ad⟩ := m
+  simp only [sortedD, Bool.and_eq_true] at hs
+  simp only [Diff.children, List.mem_append] at hc
+  rcases hc with h | h | h
+  · exact sortedDL_mem hs.1.1.2 h
+  · exact sortedDL_mem hs.1.2.2 h
+  · exact sortedDL_mem hs.2.2 h
+
+theorem findPath_mem {q : Path} {l : List DNode} {d : DNode} (h : findPath q l = some d) : d ∈ l := by
+  induction l with
+  | nil => simp [findPath] at h
+  | cons x r ih =>
+    simp only [findPath] at h
+    split_ifs at h
+    · cases h; simp
+    · simp [ih h]
+
+/-- the walk of `DirDiff.get` on a node and on the node with the order of its buckets forgotten -/
+theorem getFrom_canon : ∀ (rest : Path) (cur : DNode) (pre : Path), sortedD (canon cur) = true →
+    getFrom (canon cur) pre rest = (getFrom cur pre rest).map canon := by
+  intro rest
+  induction rest with
+  | nil => intro cur pre _; simp [getFrom]
+  | cons k r ih =>
+    intro cur pre hs
+    simp only [getFrom, findPath_children_canon _ cur hs]
+    cases h : findPath (pre ++ [k]) (Diff.children cur) with
+    | none => rfl
+    | some c =>
+      simp only [Option.map_some]
+      exact ih c (pre ++ [k]) (sortedD_child hs (mem_children_canon (findPath_mem h)))
+
+theorem get_canon (r : Option DNode) (p : Path) (hs : ∀ d, r = some d → sortedD (canon d) = true) :
+    Diff.get (r.map canon) p = (Diff.get r p).map canon := by
+  cases r with
+  | none => rfl
+  | some d => exact getFrom_canon p d [] (hs d rfl)
 
 
 /-! ## `DirDiff.get` -/
